@@ -193,6 +193,32 @@ func statelessOps(s *shared, r *rand.Rand) []op {
 			return strconv.FormatBool(xmss.VerifyWithCustomWOTSParamW(s.xmsg, s.Xsig[1], s.xpk[1], w))
 		})
 	}
+	// the exported helpers of misc: hash wrappers with output buffers shorter / longer than the digest,
+	// byte-order helpers, hash-address setters (pure functions of their arguments)
+	for _, n := range []int{0, 1, 16, 31, 32, 33, 64, 200} {
+		n := n
+		hm := make([]byte, 10+n)
+		r.Read(hm)
+		add("misc-sha256-"+strconv.Itoa(n), func() string { o := make([]byte, n); return dg(misc.SHA256(o, hm), o) })
+		add("misc-shake128-"+strconv.Itoa(n), func() string { o := make([]byte, n); return dg(misc.SHAKE128(o, hm), o) })
+		add("misc-shake256-"+strconv.Itoa(n), func() string { o := make([]byte, n); return dg(misc.SHAKE256(o, hm), o) })
+	}
+	add("misc-bytes", func() string {
+		a, b := make([]byte, 8), make([]byte, 8)
+		misc.ToByteLittleEndian(a, 0x01020304, 4)
+		misc.ToByteBigEndian(b, 0x01020304, 4)
+		misc.ToByteLittleEndian(a[4:], 0xfffe, 3)
+		misc.ToByteBigEndian(b[4:], 0xfffe, 1)
+		var ad [8]uint32
+		misc.SetType(&ad, 1)
+		misc.SetLTreeAddr(&ad, 0x12345)
+		misc.SetTreeHeight(&ad, 7)
+		misc.SetTreeIndex(&ad, 9)
+		misc.SetKeyAndMask(&ad, 2)
+		var o32 [32]uint8
+		misc.AddrToByte(&o32, &ad)
+		return dg(a, b, o32[:], []byte{misc.GetEndian()})
+	})
 	add("dverify-ok", func() string { return strconv.FormatBool(dilithium.Verify(s.dmsg, s.dsig, &s.dpk)) })
 	bad := s.dsig
 	bad[77] ^= 2
